@@ -730,6 +730,14 @@ pub fn run(rng: &mut Rng, out: &mut Out, thorough: bool) {
                 let end = if k + 1 < n { starts[k + 1] } else { total };
                 out.stat(if end <= cut { "trunc.structure_before_cut" } else if starts[k] >= cut { "trunc.structure_after_cut" } else { "trunc.structure_cut_inside" });
             }
+            // the same cut moved 1..7 bytes into the element: the file size is no multiple of 8 and the map is refused
+            if cut > 0 && rng.chance(1, 4) {
+                let k = 1 + rng.below(7) as usize;
+                let tb2 = &bytes[..cut * 8 - k];
+                let refused = files.with_map(tb2, |m| m.is_err());
+                out.stat("trunc.inside_an_element");
+                out.case("map", format!("CMapBytes {} {} {}", b(cfg!(debug_assertions)), tb2.len(), b(refused)), format!("{{\"bytes\":{},\"refused\":{}}}", tb2.len(), refused), true);
+            }
             files.with_map(tb, |m| match m {
                 Err(_) => {
                     out.stat("trunc.map_refused");
